@@ -511,7 +511,8 @@ def Dev.stepSerial (d : Dev) (w : Bytes) : Dev × Bytes :=
           | .toHost d' r data fs =>
             ({ d' with phase := .send pkt.tag (split d'.maxPacket data) fs }, ackFrame ++ mkFrame Spec.fCmd r)
           | .fromHost d' r a n fs =>
-            ({ d' with phase := if n = 0 then .send pkt.tag [] fs else .recv pkt.tag a n fs }, ackFrame ++ mkFrame Spec.fCmd r)
+            (if n = 0 then { d'.finishData pkt.tag with phase := .send pkt.tag [] fs } else { d' with phase := .recv pkt.tag a n fs },
+              ackFrame ++ mkFrame Spec.fCmd r)
       else if t = Spec.fData then
         if d.abortsNow then
           let (d', fin) := d.refuseData; (d', abortFrame ++ mkFrame Spec.fCmd fin)
@@ -545,7 +546,7 @@ def Dev.stepHid (d : Dev) (w : Bytes) : Dev × List Bytes :=
         | .toHost d' r data fs =>
           (d', [rep Spec.ridCmdIn r] ++ (split d'.maxPacket data).map (rep Spec.ridDataIn) ++ [rep Spec.ridCmdIn (genericResp fs pkt.tag)])
         | .fromHost d' r a n fs =>
-          if n = 0 then (d', [rep Spec.ridCmdIn r, rep Spec.ridCmdIn (genericResp fs pkt.tag)])
+          if n = 0 then (d'.finishData pkt.tag, [rep Spec.ridCmdIn r, rep Spec.ridCmdIn (genericResp fs pkt.tag)])
           else ({ d' with phase := .recv pkt.tag a n fs }, [rep Spec.ridCmdIn r])
     else if rid = Spec.ridDataOut then
       if d.abortsNow then
@@ -1208,6 +1209,58 @@ def Dev.logged (d : Dev) (tag : Nat) (params : List Nat) : Dev :=
 
 /-- result of an operation the device refused with status `st` -/
 def specFail (ce : Bool) (st : Nat) (v : Val) : Except HErr Val := if ce then .error (.cmd st) else .ok v
+
+/-! ### truncation of the device→host stream, and the read budget -/
+
+/-- cut a replay script: keep the first `k` bytes of what the chunks release (serial link), nothing afterwards -/
+def truncChunks : Nat → List (List Bytes) → List (List Bytes)
+  | _, [] => []
+  | k, c :: cs =>
+    if c.flatten.length ≤ k then c :: truncChunks (k - c.flatten.length) cs
+    else [c.flatten.take k] :: cs.map (fun _ => [])
+
+/-- the serial device→host stream (what is readable now followed by everything the script will release) cut after `k` bytes -/
+def Host.truncate (k : Nat) (h : Host) : Host :=
+  match h.peer with
+  | .script cs =>
+    if h.rxB.length ≤ k then { h with peer := .script (truncChunks (k - h.rxB.length) cs) }
+    else { h with rxB := h.rxB.take k, peer := .script (cs.map (fun _ => [])) }
+  | _ => h
+
+/-- cut a replay script after `k` whole HID reports -/
+def truncReports : Nat → List (List Bytes) → List (List Bytes)
+  | _, [] => []
+  | k, c :: cs =>
+    if c.length ≤ k then c :: truncReports (k - c.length) cs
+    else c.take k :: cs.map (fun _ => [])
+
+/-- the HID device→host stream cut after `k` reports (the following reports are missing) -/
+def Host.truncateReports (k : Nat) (h : Host) : Host :=
+  match h.peer with
+  | .script cs =>
+    if h.rxR.length ≤ k then { h with peer := .script (truncReports (k - h.rxR.length) cs) }
+    else { h with rxR := h.rxR.take k, peer := .script (cs.map (fun _ => [])) }
+  | _ => h
+
+/-- what an observer sees of a finished operation -/
+def observable (x : Except HErr Val × Host) : Except HErr Val × Nat × List Bytes := (x.1, x.2.status, x.2.txRev)
+
+/-- everything the host can still read: available now plus what a replay script will release
+    (every report / released string counts one extra unit, so that every successful read consumes at least one unit) -/
+def Host.pending (h : Host) : Nat :=
+  h.rxB.length + (h.rxR.map (fun r => r.length + 1)).sum +
+    (match h.peer with
+     | .script cs => (cs.map (fun c => (c.map (fun r => r.length + 1)).sum)).sum
+     | _ => 0)
+
+/-- bytes of host→device payload of an operation (its data phase has at most this many packets) -/
+def Op.dataLen : Op → Nat
+  | .writeMemory _ d _ => d.length
+  | .receiveSbFile d _ => d.length
+  | .loadImage d => d.length
+  | .kpSetUserKey _ d => d.length
+  | .kpWriteKeyStore d => d.length
+  | _ => 0
 
 /-- What the protocol defines as the effect of one operation on the device, its result and the status code
     (no link faults; `ce` = cmd_exception, `usb` = the device object is a `UsbDevice`).
